@@ -8,6 +8,8 @@ R3  MU_ALL_FALSE is set only by the scanner when it releases the spinlock, and a
     (that critical section may have made a condition true); only nsync_mu_unlock_without_wakeup may keep it.
 R4  two waiters are linked into one same-condition group only on the path where their condition functions are equal (and non-NULL) and their
     arguments are equal or declared equivalent - otherwise a false condition of one would skip the evaluation of the other.
+R5  scan soundness: every iteration of the unlocker's scan finds the waiter false, unlinks it, or clears MU_ALL_FALSE in the value to be
+    released; a scan that stops before the end of the queue clears it too (CFG path rule on the scan loop).
 Correctness of the same-condition ring maintenance over all queue contents (merge/split on insert and remove) is not decided, hence not
 "every waiter whose condition became true is woken" as a whole."""
 from .. import util, mumodel, ir as IR
@@ -25,6 +27,141 @@ def cond_callers(mod):
                 if l is not None and l.op == 'load' and util.last_field(util.addr_class(mod, fn, l.ops[0])) == 'wait_condition_s.f':
                     out.add(fn.name)
     return out
+
+def _removers(mod):
+    """functions that (transitively, 3 levels) unlink an element from a list"""
+    base = {'nsync_dll_remove_'}
+    for _ in range(3):
+        for f in mod.defined.values():
+            if f.name not in base and any(i.op == 'call' and i.callee in base for i in f.real_insts()):
+                base.add(f.name)
+    return base
+
+def _is_eval_helper(mod, name):
+    """a helper whose whole job is to evaluate one waiter's condition (condition_true): loop-free, and its only call is the indirect one"""
+    f = mod.func(name)
+    if f is None or f.decl or cfg_of(f).back_edges():
+        return False
+    calls = [i for i in f.real_insts() if i.op == 'call' and not (i.callee or '').startswith('llvm.')]
+    return len(calls) == 1 and calls[0].callee is None
+
+def check_scan(mod, K, rep, cc, rid):
+    """R5 - soundness of the unlocker's scan with respect to MU_ALL_FALSE.  The scan starts from "all conditions false" and may publish that
+    hint only if every waiter it leaves on the queue was seen false.  Per iteration of the scan loop (the innermost loop that evaluates the
+    condition of a list element), every path from the loop header back to it must (a) pass the false edge of a branch on the result of that
+    evaluation (the element, and with it its same-condition group, was found false), or (b) unlink the element (it is being woken), or
+    (c) clear MU_ALL_FALSE in the pending release value.  And every path that leaves the loop other than through "cursor == NULL" (the queue was
+    scanned to its end) must clear MU_ALL_FALSE, or pass such a cursor test, before the next scan or the return."""
+    from ..bounds import _expand, _norm_cmp
+    ALLF = K['MU_ALL_FALSE']
+    removers = _removers(mod)
+    n = 0
+    for fn in mod.defined.values():
+        evals = []
+        for i in fn.real_insts():
+            if i.op != 'call':
+                continue
+            if i.callee in cc and _is_eval_helper(mod, i.callee):
+                evals.append(i)
+            elif i.callee is None and isinstance(i.x.get('cv'), str):
+                l = fn.imap.get(i.x['cv'])
+                if l is not None and l.op == 'load' and util.last_field(util.addr_class(mod, fn, l.ops[0])) == 'wait_condition_s.f':
+                    evals.append(i)
+        if not evals:
+            continue
+        cfg = cfg_of(fn)
+        loops = cfg.loops()
+        for ev in evals:
+            inl = [h for h, body in loops.items() if ev.block.id in body]
+            if not inl:
+                continue          # a single evaluation (the waiter's own condition), not a scan
+            h = min(inl, key=lambda x: len(loops[x]))
+            body = loops[h]
+            evs_in_loop = [e for e in evals if e.block.id in body]
+            hdr_phis = set(i.id for i in fn.bmap[h].insts if i.op == 'phi' and i.ty.endswith('*'))
+            def edge_facts(b, t):
+                """normalised comparisons known to hold on the edge b -> t"""
+                term = fn.bmap[b].term
+                if term.op != 'br' or len(term.x['targets']) != 2 or term.x['targets'][0] == term.x['targets'][1] or not isinstance(term.ops[0], str) or term.ops[0] not in fn.imap:
+                    return []
+                sense = term.x['targets'][0] == t
+                out = []
+                _expand(fn, fn.imap[term.ops[0]], sense, out, 0)
+                return [x for x in (_norm_cmp(fn, c_, s_) for c_, s_ in out) if x]
+            def strip(ref):
+                while isinstance(ref, str) and ref in fn.imap and fn.imap[ref].op in ('zext', 'sext', 'trunc', 'bitcast'):
+                    ref = fn.imap[ref].ops[0]
+                return ref
+            def block_clears(b):
+                return any(i.op == 'and' and any(IR.is_int(o) and not (IR.uval(o) & ALLF) and IR.uval(o) != 0 for o in i.ops) for i in fn.bmap[b].insts)
+            def block_removes(b):
+                return any(i.op == 'call' and i.callee in removers for i in fn.bmap[b].insts)
+            # ---- per-iteration paths
+            paths = []
+            def dfs(path):
+                b = path[-1]
+                for t in fn.bmap[b].succ:
+                    if t == h:
+                        paths.append(path + [h])
+                    elif t in body and t not in path:
+                        if len(paths) < 4000:
+                            dfs(path + [t])
+            dfs([h])
+            for path in paths:
+                evaluated = set()
+                ok = None
+                for k, b in enumerate(path[:-1]):
+                    for i in fn.bmap[b].insts:
+                        if i in evs_in_loop:
+                            evaluated.add(i.id)
+                    if block_removes(b):
+                        ok = 'unlinked'
+                    if block_clears(b):
+                        ok = ok or 'MU_ALL_FALSE cleared'
+                    for pred, x, y in edge_facts(b, path[k + 1]):
+                        if pred == 'eq' and IR.is_int(y) and IR.ival(y) == 0 and strip(x) in evaluated:
+                            ok = ok or 'condition evaluated false'
+                n += 1
+                rep.instance(rid, '%s: scan iteration path %s: %s' % (fn.name, '>'.join(path), ok or 'UNEXAMINED')); rep.oblig(rid, ok is not None)
+                if ok is None:
+                    at = fn.bmap[path[-2]].term
+                    rep.violate(Violation(rid, at.where(), '%s: an iteration of the condition scan can leave a waiter on the queue without having found its condition false, without unlinking it and without clearing MU_ALL_FALSE in the value to be released (path %s): the hint "all conditions false" is then published although that waiter may be runnable, and a later reader release or nsync_mu_unlock_without_wakeup skips it'
+                                          % (fn.name, '>'.join(path)), site='%s/scan-iteration' % fn.name))
+            # ---- exits
+            for b in sorted(body):
+                for t in fn.bmap[b].succ:
+                    if t in body:
+                        continue
+                    facts = edge_facts(b, t)
+                    if any(pred == 'eq' and IR.is_null(y) and strip(x) in hdr_phis for pred, x, y in facts):
+                        n += 1
+                        rep.instance(rid, '%s: scan exit %s>%s with the cursor NULL (queue scanned to its end)' % (fn.name, b, t)); rep.oblig(rid, True)
+                        continue
+                    # explore from t: every path must clear the hint or pass a cursor == NULL edge before the next scan / the return
+                    bad = None
+                    seen = set()
+                    work = [t]
+                    while work and bad is None:
+                        x = work.pop()
+                        if x in seen:
+                            continue
+                        seen.add(x)
+                        if x == h or fn.bmap[x].term.op == 'ret':
+                            bad = x
+                            break
+                        if block_clears(x):
+                            continue
+                        for t2 in fn.bmap[x].succ:
+                            f2 = edge_facts(x, t2)
+                            if any(pred == 'eq' and IR.is_null(y) and strip(xx) in hdr_phis for pred, xx, y in f2):
+                                continue
+                            work.append(t2)
+                    n += 1
+                    rep.instance(rid, '%s: scan exit %s>%s before the end of the queue: hint cleared on every continuation: %s' % (fn.name, b, t, bad is None)); rep.oblig(rid, bad is None)
+                    if bad is not None:
+                        rep.violate(Violation(rid, fn.bmap[b].term.where(), '%s: the condition scan can stop before the end of the queue (edge %s>%s) and continue to %s without clearing MU_ALL_FALSE: the waiters behind the stopping point were never examined, yet "all conditions false" is published'
+                                              % (fn.name, b, t, 'the next scan' if bad == h else 'the release'), site='%s/scan-early-exit' % fn.name))
+    return n
 
 def run(ctx, rep):
     mod = ctx.mod('C')
@@ -94,6 +231,9 @@ def run(ctx, rep):
                                       % ('' if f_nn else ' and non-NULL'), site='%s/same-condition-merge' % fn.name))
     if mfn is None:
         raise AnalysisBroken('C06.R4: the same-condition merge was not found')
+    rep.rule('C06.R5', 'the scan publishes MU_ALL_FALSE only if every waiter left on the queue was found false (per-iteration paths and early exits)')
+    check_scan(mod, K, rep, cc, 'C06.R5')
+    rep.floor('C06.R5', 4)
     rep.floor('C06.R1', 6)
     rep.floor('C06.R2', 2)
     rep.floor('C06.R3', 2)
